@@ -60,6 +60,8 @@ struct upipe_ts_decaps {
 
     /** last continuity counter for this PID, or -1 */
     int8_t last_cc;
+    /** a counter gap was seen on a packet without payload */
+    bool discontinuity;
     /** last TS packet */
     struct uref *last_uref;
 
@@ -96,6 +98,7 @@ static struct upipe *upipe_ts_decaps_alloc(struct upipe_mgr *mgr,
     upipe_ts_decaps_init_urefcount(upipe);
     upipe_ts_decaps_init_output(upipe);
     upipe_ts_decaps->last_cc = -1;
+    upipe_ts_decaps->discontinuity = false;
     upipe_ts_decaps->lost = 0;
     upipe_ts_decaps->last_uref = NULL;
     upipe_throw_ready(upipe);
@@ -210,10 +213,22 @@ static void upipe_ts_decaps_input(struct upipe *upipe, struct uref *uref,
     upipe_ts_decaps->last_cc = cc;
 
     if (unlikely(!has_payload)) {
+        /* the counter does not advance on packets without payload (those
+         * left earlier): it moved, so payload packets are missing before
+         * the next one we output */
+        if (!discontinuity) {
+            upipe_warn(upipe, "potentially lost 1 packets");
+            upipe_ts_decaps->lost++;
+        }
+        upipe_ts_decaps->discontinuity = true;
         uref_free(uref);
         return;
     }
 
+    if (unlikely(upipe_ts_decaps->discontinuity)) {
+        discontinuity = true;
+        upipe_ts_decaps->discontinuity = false;
+    }
     if (unlikely(discontinuity))
         uref_flow_set_discontinuity(uref);
     if (unlikely(random))
